@@ -788,7 +788,8 @@ func uncheckedInlineErr(m dsl.Matcher) {
 func badSyncOnceFunc(m dsl.Matcher) {
 	m.Match(`$*_; sync.OnceFunc($x); $*_;`).
 		Report("possible sync.OnceFunc misuse, sync.OnceFunc($x) result is not used").
-		Where(m.GoVersion().GreaterEqThan("1.21"))
+		Where(m.GoVersion().GreaterEqThan("1.21")).
+		At(m["x"])
 
 	m.Match(`sync.OnceFunc($x)()`).
 		Report("possible sync.OnceFunc misuse, consider to assign sync.OnceFunc($x) to a variable").
